@@ -48,6 +48,34 @@ def run_shard(desc):
         base_ctx[k] = ("fn", ref.Beh(b["id"], b["log"], b["ret"], ref.value_from_json(b["v"]) if "v" in b else None))
     progs = []
     rend = ref.Renderer(table=model["table"])
+    if kind == "long":
+        for _ in range(n):
+            g.i = 0
+            m = rnd.choice([64, 65, 128, 129, 200])
+            k = rnd.choice(["sum", "list", "args", "stmts", "map", "nest"])
+            if k == "sum":
+                t = g.call()
+                for _i in range(m - 1):
+                    t = ["bin", rnd.choice(["+", "lop", "-"]), t, g.call()]
+            elif k == "list":
+                t = ["list", [g.call() for _i in range(m)]]
+            elif k == "args":
+                t = g.call(*[g.call() for _i in range(m)])
+            elif k == "stmts":
+                t = ["stmt", [g.call() if _i % 3 else ["bin", "=", ["ref", "a"], g.call()] for _i in range(m)]]
+            elif k == "map":
+                t = ["map", [[g.call(), g.call()] for _i in range(m // 2)]]
+            else:
+                t = g.call()
+                for _i in range(m):
+                    t = g.call(t) if _i % 2 else ["list", [t, g.call()]]
+            text = rend.render(t)
+            _, ev = ref.evaluate(t, base_ctx, **model)
+            progs.append({"tree": t, "text": text, "fault": None})
+            for kk in sorted({1, 2, 63, 64, 65, 127, 128, 129, ev.count - 1, ev.count}):
+                if 1 <= kk <= ev.count:
+                    progs.append({"tree": t, "text": text, "fault": (kk, "err")})
+        n = 0
     for _ in range(n):
         t = g.program(d=rnd.randint(1, 4))
         text = rend.render(t)
@@ -95,6 +123,7 @@ def run(rep, tier):
     n = 24000 if tier == "quick" else 500000
     per = 1000 if tier == "quick" else 10000
     shards = [("ord", i, per, "release" if i % 2 else "verifdbg") for i in range(n // per)]
+    shards += [("long", i, 12 if tier == "quick" else 300, "release" if i % 2 else "verifdbg") for i in range(16)]
     for part in common.pmap(run_shard, shards):
         rep.merge(part)
     rep.floor = 5000
